@@ -1,6 +1,7 @@
 \* every RELA table of <= 2 entries x every REL table of <= 2 entries over 4 words, 4 dynamic-section layouts,
 \* 3 program-header lists, 3 start-up situations
 CONSTANTS
+  Variant = "coded"
   Rels <- Rel2
   Relas <- Rela2
   Words <- W
